@@ -31,6 +31,12 @@ func (e *kvElection) logWithContext(ctx context.Context) []zap.Field {
 		zap.String("bucket", e.cfg.Bucket),
 	}
 
+	// The election context is cleared by StopWithContext; goroutines that outlive
+	// the shutdown may still log with it.
+	if ctx == nil {
+		return fields
+	}
+
 	// Add correlation ID if present in context
 	if correlationID := ctx.Value("correlation_id"); correlationID != nil {
 		fields = append(fields, zap.String("correlation_id", correlationID.(string)))
